@@ -97,13 +97,13 @@ def cases(tier, seed):
         yield from forest_cases(1) + forest_cases(2) + forest_cases(3)
         exh = forest_cases(4) + alltrees_cases(3) + alltrees_cases(4)
         yield from interleave(exh, (rand_stream("walk", 80000), 4), rand_stream("wide", 3000),
-                              rand_stream("errors", 2000))
+                              rand_stream("errors", 2000), rand_stream("fanout", 400))
     else:
         yield from forest_cases(1) + forest_cases(2) + forest_cases(3)
         exh = forest_cases(4) + alltrees_cases(3) + alltrees_cases(4) + alltrees_cases(5) + forest_cases(5)
         yield from interleave((exh, 6), (rand_stream("walk", 4000000), 200), (rand_stream("wide", 200000), 12),
                               (rand_stream("errors", 50000), 2), rand_stream("forest6", 200000),
-                              rand_stream("alltrees67", 200000))
+                              rand_stream("alltrees67", 200000), rand_stream("fanout", 20000))
 
 
 # --------------------------------------------------------------------------- reference semantics
@@ -669,6 +669,37 @@ def run_case(case, ctx):
             random_calls(ctx, T, rng, 40)
         return
     # random tree sequences from the shared forest-walk generator
+    if g == "fanout":
+        # one node (or the virtual root) with several hundred children: per-child vote counters must not be narrow
+        k = rng.choice([255, 256, 257, 258, 300, 511, 512, 513, 600])
+        shape = rng.choice(["star", "roots", "star-under-unary", "two-stars"])
+        m = RowModel(1.0)
+        m.nodes = [(NODE_IS_SAMPLE, 0.0, NULL, NULL, b"") for _ in range(k)]
+        edges = []
+        if shape != "roots":
+            m.nodes.append((0, 1.0, NULL, NULL, b""))
+            hub = k
+            edges = [(0.0, 1.0, hub, c, b"") for c in range(k)]
+            if shape == "star-under-unary":
+                m.nodes.append((rng.choice([0, NODE_IS_SAMPLE]), 2.0, NULL, NULL, b""))
+                edges.append((0.0, 1.0, k + 1, hub, b""))
+            elif shape == "two-stars":
+                extra = rng.randint(2, 40)
+                base = len(m.nodes)
+                m.nodes += [(NODE_IS_SAMPLE, 0.0, NULL, NULL, b"") for _ in range(extra)]
+                m.nodes.append((0, 1.0, NULL, NULL, b""))
+                hub2 = len(m.nodes) - 1
+                edges += [(0.0, 1.0, hub2, c, b"") for c in range(base, base + extra)]
+                m.nodes.append((0, 3.0, NULL, NULL, b""))
+                edges += [(0.0, 1.0, len(m.nodes) - 1, hub, b""), (0.0, 1.0, len(m.nodes) - 1, hub2, b"")]
+        m.edges = sorted(edges, key=lambda e: (m.time(e[2]), e[2], e[3], e[0]))
+        ts = to_ts(m)
+        T = TreeCtx(ts, ts.first(), m, 0.0)
+        ctx.sig(("fanout", k, shape), nontrivial=True)
+        ctx.feature("fanout:" + shape)
+        tag_tree(ctx, T)
+        random_calls(ctx, T, rng, 3, big=True)
+        return
     if g == "wide":
         n = rng.randint(30, 90)
         m = gen.gen_topology(rng, n=n, max_bp=rng.choice([0, 0, 1]),
